@@ -229,6 +229,19 @@ def configs() -> list:
     cs.append(C("lazy_p/module_level_name_shadows_local", [("m", HDR + 'tree = is_int_p | is_list_of_p(lazy_p("tree"))\ndef cfg():\n    tree = is_str_p | is_list_of_p(lazy_p("tree"))\n'
                                                                 '    for x in XS:\n        @CALL P ;; tree ;; x\ncfg()\nfor x in XS:\n    @CALL G ;; tree ;; x\n')],
                 {"P": S, "G": I}))
+    # beyond the small bounds (search only): first call far below the definition, names of every spelling, values nested 65-90 deep
+    for k in "TRL":
+        kn = KIND_NAME[k]
+        for depth in (30, 80, 200):
+            cs.append(C(f"{kn}/beyond_small_bounds/first_call_{depth}_frames_below_the_definition",
+                        [("m", HDR + "def down(n, p, v):\n    if n > 0:\n        return down(n - 1, p, v)\n    @CALL P ;; p ;; v\n"
+                                     f"def cfg():\n    {dfn(k)}\n    for x in XS:\n        down({depth}, P, x)\ncfg()\n")], {"P": S}))
+        for nm in ("_str_tree_p", "__p", "p_", "_", "P1", "a_rather_long_name_for_a_recursive_predicate_of_strings", "\u03c0"):
+            cs.append(C(f"{kn}/beyond_small_bounds/bound_to_the_name_{nm}",
+                        [("m", HDR + f"def cfg():\n    {dfn(k, nm)}\n    for x in XS:\n        @CALL P ;; {nm} ;; x\ncfg()\n")], {"P": S}))
+            cs.append(C(f"{kn}/beyond_small_bounds/module_level_name_{nm}",
+                        [("m", HDR + f"{dfn(k, nm)}\nfor x in XS:\n    @CALL P ;; {nm} ;; x\n")], {"P": S}))
+        cs.append(C(f"{kn}/beyond_small_bounds/deeply_nested_values", [("m", HDR + f"def cfg():\n    {dfn(k)}\n    for x in XS:\n        @CALL P ;; P ;; x\ncfg()\n")], {"P": S}))
     # the library's own tests' shapes
     cs.append(C("this_p/or_inside_list", [("m", HDR + "def cfg():\n    P = is_str_p | is_list_of_p(this_p | is_int_p)\n    for x in XS:\n        @CALL P ;; P ;; x\ncfg()\n")], {"P": "rec(is_str, is_int)"}))
     cs.append(C("this_p/used_inside_larger_predicate", [("m", HDR + "def cfg():\n    P = is_str_p | is_list_of_p(this_p)\n    Q = P | is_int_p\n    for x in XS:\n        @CALL Q ;; Q ;; x\ncfg()\n")], {"Q": "lambda x: rec(is_str)(x) or is_int(x)"}))
@@ -669,6 +682,12 @@ JSON_MODEL = [[], {}, [1], {"a": 1}, {"b": [1, "s", 2.5, None]}, {"c": {"d": 2}}
               {"h": (1, 2)}, [{"i": {3}}], 1, "s", None, {"j": {"k": {"l": []}}}]
 
 
+def wrap(leaf, depth):
+    for _ in range(depth):
+        leaf = [leaf]
+    return leaf
+
+
 def nested_lists(leaves, depth, width):
     level = list(leaves)
     allv = list(leaves)
@@ -763,7 +782,7 @@ def record_configs(cfgs, xs_of):
 
 def correspondence(payload):
     mism = fingerprint_mismatches()
-    cfgs = [c for c in configs() if "analysed_before_first_call" not in c["name"]] + JSON_CONFIGS   # (those run library functions whose frames the model does not have: search only)
+    cfgs = [c for c in configs() if "analysed_before_first_call" not in c["name"] and "beyond_small_bounds" not in c["name"]] + JSON_CONFIGS   # (those run library functions whose frames the model does not have: search only)
     rng = rng_of(payload)
     more = payload.get("tier") == "thorough" or payload.get("deep")
     xs_model = XS_MODEL + [random_nested(rng, ["a", "b", 1, None], 3, 3) for _ in range(30 if more else 4)]
@@ -864,6 +883,10 @@ def search(payload):
     for ci, cfg in enumerate(cfgs):
         xs = list(full if (deep or cfg["name"].endswith("/alone") or "other_recursive" in cfg["name"]) else base)
         xs += [random_nested(rng, leaves + [None, 2.5], 3, 3) for _ in range(1500 if deep else 150)]
+        if "beyond_small_bounds" in cfg["name"]:
+            xs = [["a"], [1], "a", ["a", ["b"]], ["a", [2]], [], [["a", []], "b"], [[1]]]
+        if cfg["name"].endswith("deeply_nested_values"):
+            xs = [["a"], [1]] + [wrap(leaf, d) for d in (10, 40, 64, 65, 66, 70, 80) for leaf in ("a", 1, ["a", "b"], ["a", 1])]
         # the first calls decide what is cached: shuffle them per configuration
         rng.shuffle(xs)
         outs = _h_run_config(cfg, xs)
